@@ -5,6 +5,8 @@
 import Anonymongo.Model.Plan
 import Anonymongo.Model.Stream
 import Anonymongo.Model.Cli
+import Anonymongo.Model.Siv
+import Anonymongo.Model.Base64
 import Anonymongo.Generated.Tables
 open Anonymongo
 
@@ -76,6 +78,12 @@ def decJ (s : String) : Option J :=
   | some (v, _) => some v
   | none => none
 
+/-- the key the harness installs for encrypt-mode operations (harness.go verifGoodKey) -/
+def goodKey : Bytes := (List.range 64).map fun i => (i * 7 + 3).toUInt8
+
+def asciiOfBytes (b : Bytes) : Str := b.map fun x => Char.ofNat x.toNat
+def bytesOfAscii (s : Str) : Bytes := s.map fun c => c.toNat.toUInt8
+
 def parseCfg (s : String) : LineCfg := Id.run do
   let mut cfg : LineCfg := { repl := T.defaultRepl, nums := false, bools := false, ips := false, ns := false,
                              eager := [], re := none, enc := none }
@@ -96,6 +104,7 @@ def parseCfg (s : String) : LineCfg := Id.run do
       else if k == "y" then
         if v == "1" then cfg := { cfg with enc := some fun s => some ("ENC(".toList ++ s ++ ")".toList) }
         else if v == "2" then cfg := { cfg with enc := some fun _ => none }
+        else if v == "3" then cfg := { cfg with enc := some fun s => some (Base64.enc (Siv.aesEnc goodKey (utf8 s))) }
     | _ => pure ()
   if z then
     let names := zm
@@ -180,6 +189,53 @@ def runOp (f : List String) : String :=
     let (out, res) := runStream (lineFn (parseCfg cfg)) (unhexBytes h) (num 'r') wf
     let st := match res with | .ok => "ok" | .tooLong => "toolong" | .readErr => "readerr" | .writeErr => "writeerr"
     st ++ " " ++ hexOfBytes out
+  | [_, "encrt", k, p] =>
+    let key := unhexBytes k
+    if key.length = 64 then
+      let ct := Siv.aesEnc key (unhexBytes p)
+      match Siv.aesDec key ct with
+      | some pt => "ok " ++ hexOfBytes ct ++ " " ++ hexOfBytes pt
+      | none => "decerr"
+    else "encerr"
+  | [_, "dec", k, c] =>
+    let key := unhexBytes k
+    if key.length = 64 then
+      match Siv.aesDec key (unhexBytes c) with
+      | some pt => "ok " ++ hexOfBytes pt
+      | none => "decerr"
+    else "decerr"
+  | [_, "tamper", k, p, kind, ns] =>
+    let key := unhexBytes k
+    let n := ns.toNat?.getD 0
+    if key.length = 64 then
+      let ct := Siv.aesEnc key (unhexBytes p)
+      let ct' : Bytes :=
+        if kind == "f" then
+          let i := n % (ct.length * 8)
+          ct.mapIdx fun j b => if j = i / 8 then b ^^^ ((1 : UInt8) <<< (i % 8).toUInt8) else b
+        else if kind == "t" then ct.take (n % (ct.length + 1))
+        else if kind == "a" then ct ++ [n.toUInt8]
+        else ct
+      let dkey : Bytes :=
+        if kind == "k" then key.mapIdx fun j b => if j = n % 64 then b + 1 else b
+        else if kind == "s" then key.drop 32 ++ key.take 32
+        else key
+      match Siv.aesDec dkey ct' with
+      | some pt => "ok " ++ hexOfBytes ct' ++ " " ++ hexOfBytes pt
+      | none => "decerr " ++ hexOfBytes ct'
+    else "encerr"
+  | [_, "b64e", h] => "ok " ++ hexOfBytes (bytesOfAscii (Base64.enc (unhexBytes h)))
+  | [_, "b64d", h] =>
+    match Base64.dec (asciiOfBytes (unhexBytes h)) with
+    | some raw => "ok " ++ hexOfBytes raw
+    | none => "err"
+  | [_, "readkey", h] =>
+    match Base64.dec (asciiOfBytes (unhexBytes h)) with
+    | some k => if k.length = 64 then "ok " ++ hexOfBytes k else "err"
+    | none => "err"
+  | [_, "writekey", h] =>
+    let k := unhexBytes h
+    if k.length = 64 then "ok " ++ hexOfBytes (bytesOfAscii (Base64.enc k)) else "err"
   | [_, "validate", bits] => Cli.showDecision (Cli.validate (Cli.flagsOfBits bits))
   | _ => "badop"
 
